@@ -19,6 +19,7 @@ global size_of usize == 8;
 //@@ include prelude/codec_types.rs
 //@@ include prelude/core_types.rs
 //@@ include prelude/socket_standins.rs
+//@@ include prelude/recv_specs.rs
 
 #[verifier::external_type_specification]
 #[verifier::external_body]
@@ -145,6 +146,20 @@ impl PubSocketBackend {
 //@ item src/xpub.rs :: struct XPubSocketBackend
 //@ end
 spec fn xtopics(s: XPubSubscriber) -> Seq<Seq<u8>> { topics_of(s.subscriptions@) }
+/// what processing one item from subscriber `p` does to the XPUB subscriber table (RFC 29 bookkeeping)
+spec fn xsub_applied(t0: Map<PeerIdentity, XPubSubscriber>, t1: Map<PeerIdentity, XPubSubscriber>, p: PeerIdentity, message: Message) -> bool {
+    // only the sender's own entry can change
+    &&& forall|q: PeerIdentity| q != p && t0.contains_key(q) ==> t1.contains_key(q) && #[trigger] t1[q] == t0[q]
+    &&& t1.dom() =~= t0.dom()
+    // anything that is not a one-frame 0x01 / 0x00 message changes nothing
+    &&& (sub_frame(message) is None || sub_frame(message)->Some_0[0] > 1) ==> t1 == t0
+    // SUBSCRIBE adds one occurrence of the topic
+    &&& (sub_frame(message) is Some && sub_frame(message)->Some_0[0] == 1 && t0.contains_key(p)) ==>
+            subscribed(xtopics(t0[p]), xtopics(t1[p]), sub_frame(message)->Some_0.subrange(1, sub_frame(message)->Some_0.len() as int))
+    // CANCEL takes one occurrence away; an unknown topic changes nothing
+    &&& (sub_frame(message) is Some && sub_frame(message)->Some_0[0] == 0 && t0.contains_key(p)) ==>
+            cancelled(xtopics(t0[p]), xtopics(t1[p]), sub_frame(message)->Some_0.subrange(1, sub_frame(message)->Some_0.len() as int))
+}
 impl XPubSocketBackend {
 //@ item src/xpub.rs :: impl XPubSocketBackend / fn message_received
 //@ name XPubSocketBackend::message_received
@@ -152,14 +167,7 @@ impl XPubSocketBackend {
 //@ subst-re "(\w+)\.subscriptions\.iter\(\)\.position\(\|s\| s == &sub\)"
 //@|    assumed_position(&\1.subscriptions, &sub)
 //@ spec
-//@|        ensures
-//@|            forall|q: PeerIdentity| q != *peer_id && old(self).subscribers@.contains_key(q) ==> final(self).subscribers@.contains_key(q) && #[trigger] final(self).subscribers@[q] == old(self).subscribers@[q],
-//@|            final(self).subscribers@.dom() =~= old(self).subscribers@.dom(),
-//@|            (sub_frame(message) is None || sub_frame(message)->Some_0[0] > 1) ==> final(self).subscribers@ == old(self).subscribers@,
-//@|            (sub_frame(message) is Some && sub_frame(message)->Some_0[0] == 1 && old(self).subscribers@.contains_key(*peer_id)) ==>
-//@|                subscribed(xtopics(old(self).subscribers@[*peer_id]), xtopics(final(self).subscribers@[*peer_id]), sub_frame(message)->Some_0.subrange(1, sub_frame(message)->Some_0.len() as int)),
-//@|            (sub_frame(message) is Some && sub_frame(message)->Some_0[0] == 0 && old(self).subscribers@.contains_key(*peer_id)) ==>
-//@|                cancelled(xtopics(old(self).subscribers@[*peer_id]), xtopics(final(self).subscribers@[*peer_id]), sub_frame(message)->Some_0.subrange(1, sub_frame(message)->Some_0.len() as int)),
+//@|        ensures xsub_applied(old(self).subscribers@, final(self).subscribers@, *peer_id, message),
 //@ hint start
 //@|        broadcast use lemma_map_remove, lemma_map_push;
 //@ hint before "entry.subscriptions.push("
@@ -496,6 +504,32 @@ impl XPubSocket {
 //@|            invariant
 //@|                tfv.dom() =~= t0.dom(), forall|k: PeerIdentity| t0.contains_key(k) ==> xdelivered_iff(t0[k], #[trigger] tfv[k], message),
 //@|                forall|k: PeerIdentity| #[trigger] self.backend.subscribers@.contains_key(k) ==> tfv.contains_key(k) && self.backend.subscribers@[k] == tfv[k],
+//@ end
+}
+
+impl XPubSocket {
+// C11: XPUB hands every subscription message to the application verbatim (the first message item the queue yields),
+// after applying it to the subscriber table
+//@ item src/xpub.rs :: impl SocketRecv for XPubSocket / fn recv
+//@ name XPubSocket::recv
+//@ inherent
+//@ attr
+//@|    #[verifier::loop_isolation(false)]
+//@|    #[verifier::exec_allows_no_decreases_clause]
+//@ ret r
+//@ spec
+//@|        ensures
+//@|            plain_received(old(self).fair_queue.log@, final(self).fair_queue.log@, r),
+//@|            r is Ok ==> exists|m: Message| m is Message && m->Message_0.fr() == r->Ok_0.fr()
+//@|                && #[trigger] xsub_applied(old(self).backend.subscribers@, final(self).backend.subscribers@, final(self).fair_queue.log@.last()->Some_0.0, m),
+//@|            failed_item(final(self).fair_queue.log@.last()) ==> final(self).backend.subscribers@ == old(self).backend.subscribers@.remove(final(self).fair_queue.log@.last()->Some_0.0),
+//@|            final(self).fair_queue.log@.last() is None ==> final(self).backend.subscribers@ == old(self).backend.subscribers@,
+//@ loop 1
+//@|            invariant
+//@|                self.fair_queue.log@.len() >= old(self).fair_queue.log@.len(),
+//@|                self.fair_queue.log@.subrange(0, old(self).fair_queue.log@.len() as int) =~= old(self).fair_queue.log@,
+//@|                forall|i: int| old(self).fair_queue.log@.len() <= i < self.fair_queue.log@.len() ==> skipped_item(#[trigger] self.fair_queue.log@[i]),
+//@|                self.backend.subscribers@ == old(self).backend.subscribers@,
 //@ end
 }
 
